@@ -47,7 +47,8 @@ def check(prop: str, tier: str, rep: Report | None = None) -> Report:
         raise Machinery(f"spec-level counterexample: M violates {mc.violated} in {mc_cfg}\n"
                         f"{mc.output[-3000:]}")
     configs, behs, ex = export_behaviours(ex_cfg, f"{prop}-exp", module="PolicyMC.tla")
-    n_replayed, mism = replay_behaviours(configs, behs, VARIANTS, level="policy")
+    variants = VARIANTS[:2] if (prop == "C07" and tier == "quick") else VARIANTS
+    n_replayed, mism = replay_behaviours(configs, behs, variants, level="policy")
     v1 = tlc_validate("PolicyTrace", mism, f"{prop}-mism") if mism else []
     nonconf = judge(rep, prop, mism, v1, "S->C replay of a TLC behaviour")
     extra: dict = {}
